@@ -251,14 +251,69 @@ def eval_overlaps(trial, wds, ja, jb, chunk):
     return np.concatenate(out)
 
 
+_LOWER = {}
+
+
+def lower_set_digits(E, nlet, d):
+    """All words x in {0..nlet-1}^E with sum(x) <= d, smallest sum first.  Interpolation on a lower set of a product
+    grid is unisolvent for the polynomials whose exponent vectors lie in that set, so these points decide every
+    polynomial of degree < nlet per variable and total degree <= d."""
+    key = (E, nlet, d)
+    if key not in _LOWER:
+        def rec(e, budget):
+            if e == 0:
+                yield ()
+                return
+            for v in range(min(nlet - 1, budget) + 1):
+                for rest in rec(e - 1, budget - v):
+                    yield (v,) + rest
+        a = np.array(list(rec(E, d)), dtype=np.int8).reshape(-1, E)
+        _LOWER[key] = a[np.argsort(a.sum(axis=1), kind="stable")]
+    return _LOWER[key]
+
+
+def walker_grid(n, na, nb, seed, restricted, limit):
+    """Frame-basis walker grid.  The overlap and <psi|H|phi> are homogeneous polynomials of total degree n_up+n_dn in the
+    walker entries (degree <= 1 per entry, <= 2 for a restricted walker).  Up to 4096 points the full product grid is used
+    (as in C01/C02); beyond, the lower set {digit sum <= n_up+n_dn} of the same product grid, which decides the same
+    polynomial identities with far fewer points.  `limit` bounds the number of points (degree reduced -> capped)."""
+    nlet = 3 if restricted else 2
+    Ea = n * na
+    E = Ea if restricted else n * (na + nb)
+    deg = na + nb
+    if nlet ** E <= 4096:
+        digits, kind, d = al.grid_digits(E, nlet, E, seed)[0], "full", deg
+    else:
+        d = deg
+        while d > 1 and len(lower_set_digits(E, nlet, d)) > limit:
+            d -= 1
+        digits, kind = lower_set_digits(E, nlet, d), "lower-set(sum<=%d)" % d
+    Ga = al.block_from_digits(digits[:, :Ea], n, na, seed, nlet)
+    Gb = None if restricted else al.block_from_digits(digits[:, Ea:], n, nb, seed + 1, nlet)
+    return dict(Ga=Ga, Gb=Gb, P=digits.shape[0], capped=d < deg, kind=kind, entries=E, degree=d, full_degree=deg)
+
+
 def ref_grid(n, na, nb, ref, seed, cap, restricted=False):
-    """Walker grid (lab frame) whose reference block(s) sit on the occupied orbitals of `ref`."""
-    grid = al.walker_grid(n, na, nb, seed, restricted=restricted, cap=cap)
+    """Walker grid (lab frame) whose reference block(s) sit on the occupied orbitals of `ref`; cap = point limit."""
+    grid = walker_grid(n, na, nb, seed, restricted, cap)
     Qa, Qb = trials.frame_for_ref(n, ref[0]), trials.frame_for_ref(n, ref[1])
     if restricted:
         W = np.einsum("pq,wqk->wpk", Qa, grid["Ga"])
         return grid, W, None
     return grid, np.einsum("pq,wqk->wpk", Qa, grid["Ga"]), np.einsum("pq,wqk->wpk", Qb, grid["Gb"])
+
+
+def nbatch_for(P):
+    """A batch count > 1 dividing the number of walkers (the library reshapes to (n_batch, P // n_batch, ...))."""
+    for d in (4, 3, 2, 5, 7, 9, 11, 13):
+        if P % d == 0:
+            return d
+    return 1
+
+
+def cap_text(what, n, na, nb, mode, grid):
+    return ("%s n=%d (%d,%d) %s walkers: grid %s of %d points has total degree %d < %d = n_up+n_dn (point limit)" % (
+        what, n, na, nb, mode, grid["kind"], grid["P"], grid["degree"], grid["full_degree"]))
 
 
 def block_dets(ref, Wa, Wb):
@@ -268,15 +323,20 @@ def block_dets(ref, Wa, Wb):
 
 
 # ----------------------------------------------------------------------------- (1) representation invariance
+ROOT_SIG = "get_excitations+multislater._calc_overlap/list-overlap"
+REPR_SITES = ("get_excitations", "read_dets", "get_fci_state")
+
+
 def repr_sig(kind, source, extra, ndets, base_bad):
-    kind = "pair" if kind == "unit" else kind
+    """Call site + failure class.  A list that already fails on the plain route (python dict, cut-off = needed) is
+    attributed to that route whatever the variant; otherwise to what the variant adds."""
     if base_bad or (source == "dict" and extra == 0 and ndets is None):
-        return "get_excitations+multislater._calc_overlap/%s" % kind
+        return ROOT_SIG
     if source != "dict":
-        return "%s/%s" % (SITE[source], kind)
+        return "%s/list-overlap" % SITE[source]
     if ndets is not None:
-        return "get_excitations/ndets-truncation/%s" % kind
-    return "get_excitations+multislater._calc_overlap/cutoff-above-needed/%s" % kind
+        return "get_excitations/ndets-truncation"
+    return "get_excitations+multislater._calc_overlap/cutoff-above-needed"
 
 
 def job_repr(cfg):
@@ -293,8 +353,7 @@ def job_repr(cfg):
             grid, Wa, Wb = ref_grid(n, na, nb, ref, seed, cfg["cap"])
             P = grid["P"]
             if grid["capped"]:
-                res.cap("n=%d (%d,%d): %d of %d walker entries enumerated (others frozen); the sub-grid still spans the sector "
-                        "(rank guard), which decides the effective CI vector" % (n, na, nb, len(grid["free"]), grid["entries"]))
+                res.cap(cap_text("lists", n, na, nb, "unrestricted", grid))
             Phi = sec.walker_vectors(Wa, Wb)
             if np.linalg.matrix_rank(Phi) < sec.dim:
                 raise RuntimeError("walker grid does not span the sector for %r" % (cfg,))
@@ -350,6 +409,24 @@ def job_repr(cfg):
                                            n_points=P, walker_up=Wa[b], walker_dn=Wb[b])
                 res.add(states=P * len(es), transitions=P * len(es), evaluations=P * len(es), traces=P * len(es))
             base = {e["label"]: e["bad"] is not None for e in entries if e["source"] == "dict" and e["extra"] == 0 and e["ndets"] is None}
+
+            def base_bad(e):
+                """Does the plain route (python dict, cut-off = needed, no truncation) already fail for this list?  Decides
+                which call site a failure is attributed to; evaluated on demand (failures only)."""
+                if e["label"] not in base:
+                    its = [(tuple(a), tuple(b), c) for a, b, c in e["case"]["items"]]
+                    if e["kind"] == "dense":  # the FCI route carries positional magnitudes; the plain route its own vector
+                        its = [(a, b, dc[(a, b)]) for a, b, _ in its]
+                    try:
+                        t0, w0 = build_wave_data("dict", n, na, nb, its, needed(its))
+                        O0 = eval_overlaps(t0, [w0], ja, jb, chunk)[0]
+                        R0 = np.conj(ket_of(n, na, nb, its)) @ Phi
+                        e0 = np.abs(O0 - R0) / np.maximum(np.abs(R0), 1e-3 * np.abs(R0).max())
+                        base[e["label"]] = not np.all(np.where(np.isfinite(O0), e0, np.inf) <= TOL_O)
+                    except Exception:
+                        base[e["label"]] = True
+                return base[e["label"]]
+
             for e in entries:
                 res.nontrivial((n, na, nb, e["label"], e["source"], e["extra"], e["ndets"]))
                 res.guard("lists_" + ("pair" if e["kind"] == "unit" else e["kind"]))
@@ -358,7 +435,8 @@ def job_repr(cfg):
                     res.guard("lists_cutoff_above_needed")
                 if e["bad"] is not None:
                     case = dict(e["case"], point=e["bad"])
-                    found.append((e["order"], repr_sig(e["kind"], e["source"], e["extra"], e["ndets"], base.get(e["label"], False)),
+                    plain = e["source"] == "dict" and e["extra"] == 0 and e["ndets"] is None
+                    found.append((e["order"], repr_sig(e["kind"], e["source"], e["extra"], e["ndets"], (not plain) and base_bad(e)),
                                   case, e["detail"]))
             if entries and r == cfg["refs"][0]:
                 e = entries[-1]
@@ -378,11 +456,11 @@ def job_repr(cfg):
                             res.guard("restricted_grids_skipped_singular_reference_block")
                             continue
                         Ph = sec.walker_vectors(Va, Vb)
-                        nbt = gridmc.batch_counts(g2["P"], False)[-1]
+                        nbt = nbatch_for(g2["P"])
                         O = np.asarray(gridmc.jitted(gridmc.with_batch(trial, nbt), "calc_overlap")(jnp.asarray(W), wd))
                     else:
                         Ph, Va, Vb = Phi, Wa, Wb
-                        nbt = gridmc.batch_counts(P, False)[-1]
+                        nbt = nbatch_for(P)
                         O = np.asarray(gridmc.jitted(gridmc.with_batch(trial, nbt), "calc_overlap")([ja, jb], wd))
                     Oref = np.conj(ket) @ Ph
                     err = np.abs(O - Oref) / np.maximum(np.abs(Oref), 1e-3 * np.abs(Oref).max())
@@ -393,7 +471,9 @@ def job_repr(cfg):
                     if b is not None:
                         case = dict(part="repr-public", n=n, na=na, nb=nb, seed=seed, cap=cfg["cap"], cap_r=cfg["cap_r"], ref=r,
                                     mode=mode, n_batch=nbt, point=b)
-                        found.append((10 ** 6, "multislater.calc_overlap/%s/dense" % mode, case,
+                        root = any(e["bad"] is not None for e in entries if e["kind"] == "dense" and e["label"].endswith("rot0")
+                                   and e["source"] == "dict" and e["ndets"] is None)
+                        found.append((10 ** 6, ROOT_SIG if root else "multislater.calc_overlap/batched-%s" % mode, case,
                                       dict(impl=O[b], ref=Oref[b], relerr=float(err[b]), n_bad=int((~(err <= TOL_O)).sum()))))
     for order, sig, case, detail in sorted(found, key=lambda t: (t[0], t[2].get("extra", 0), SOURCES.index(t[2].get("source", "dict")))):
         res.violation(sig, case, detail)
@@ -567,7 +647,7 @@ def zv_eval(sysd, ref, mode, cap, seed, items=None):
     dmin = block_dets(ref, Va, Vb)
     if dmin < 1e-2:
         return None, grid
-    tr = gridmc.with_batch(trial, gridmc.batch_counts(grid["P"], False)[-1])
+    tr = gridmc.with_batch(trial, nbatch_for(grid["P"]))
     hd = gridmc.build_ham_data(n, sysd["h0"], sysd["h1"], sysd["chol"], tr, wd)
     E = np.asarray(gridmc.jitted(tr, "calc_energy")(walkers, hd, wd))
     O = np.asarray(gridmc.jitted(tr, "calc_overlap")(walkers, wd))
@@ -585,11 +665,21 @@ def zv_errors(E, Oref, E0):
 
 
 def job_zv(cfg):
+    """All eigenvectors of one orbital space in one job (they share every compilation)."""
     res = Result()
-    spec, seed = cfg["spec"], cfg["seed"]
+    for spec in cfg["specs"]:
+        _zv_one(res, cfg, spec)
+    return res
+
+
+def _zv_one(res, cfg, spec):
+    seed = cfg["seed"]
     sysd = system(spec)
     n, na, nb, E0 = sysd["n"], sysd["na"], sysd["nb"], sysd["E"]
-    refs = references(sysd["items"], cfg.get("max_refs"))
+    # every non-negligible reference for ground states (and everything up to 9 determinants); a spread of
+    # max_refs references for the other eigenvectors of the larger spaces
+    full = spec.get("eig", 0) == 0 or len(sysd["items"]) <= 9
+    refs = references(sysd["items"], cfg.get("max_refs") if not (full and cfg["tier"] == "thorough") else cfg.get("max_refs_ground"))
     kind = spec["sys"] if spec["sys"] == "rand" else "molecule"
     first = True
     for ref in refs:
@@ -602,8 +692,7 @@ def job_zv(cfg):
                 res.guard("restricted_grids_skipped_singular_reference_block")
                 continue
             if grid["capped"]:
-                res.cap("zero variance %s n=%d (%d,%d) mode %s: %d of %d walker entries enumerated (others frozen)" % (
-                    spec.get("name", "rand"), n, na, nb, mode, len(grid["free"]), grid["entries"]))
+                res.cap(cap_text("zero variance " + spec.get("name", "generic H"), n, na, nb, mode, grid))
             E, O, Oref, Va, Vb = out
             P = len(E)
             err, good = zv_errors(E, Oref, E0)
@@ -613,16 +702,18 @@ def job_zv(cfg):
             res.guard("zv_references")
             res.nontrivial_values((repr(sorted(spec.items())), ref, mode), Oref, 10)
             case = dict(part="zv", spec=spec, seed=seed, ref=[list(ref[0]), list(ref[1])], mode=mode, cap=cap)
-            b = gridmc.first_bad(err, TOL_E)
-            if b is not None:
-                res.violation("multislater.calc_energy/exact-trial-local-energy/%s/%s" % (mode, kind), dict(case, point=b),
-                              dict(impl=E[b], E_exact=E0, err=float(err[b]), tol=TOL_E, n_bad=int((~(err <= TOL_E)).sum()), n_points=P,
-                                   overlap=Oref[b], walker_up=Va[b], walker_dn=Vb[b]))
             eo = np.abs(O - Oref) / np.maximum(np.abs(Oref), 1e-3 * np.abs(Oref).max())
             eo = np.where(np.isfinite(O), eo, np.inf)
-            b = gridmc.first_bad(eo, TOL_O)
+            bo = gridmc.first_bad(eo, TOL_O)
+            sig_o = "multislater.calc_overlap/full-vector/%s" % mode
+            b = gridmc.first_bad(err, TOL_E)
+            if b is not None:  # a wrong overlap of the same trial makes the energy failure a consequence of it
+                res.violation(sig_o if bo is not None else "multislater.calc_energy/exact-trial-local-energy/%s" % mode, dict(case, point=b),
+                              dict(impl=E[b], E_exact=E0, err=float(err[b]), tol=TOL_E, n_bad=int((~(err <= TOL_E)).sum()), n_points=P,
+                                   overlap=Oref[b], walker_up=Va[b], walker_dn=Vb[b]))
+            b = bo
             if b is not None:
-                res.violation("multislater.calc_overlap/full-vector/%s/%s" % (mode, kind), dict(case, point=b, what="overlap"),
+                res.violation(sig_o, dict(case, point=b, what="overlap"),
                               dict(impl=O[b], ref=Oref[b], relerr=float(eo[b])))
             if first:
                 # control: the same list with one sign flipped is not an eigenvector and must NOT pass
@@ -634,7 +725,7 @@ def job_zv(cfg):
                         res.guard("control_inexact_trial_deviates")
                 res.sample(dict(part="zero-variance", system=spec, n=n, nelec=[na, nb], E_exact=E0, n_dets=len(sysd["items"]),
                                 reference=[list(ref[0]), list(ref[1])], mode=mode, grid_points=P, max_err=float(err.max())))
-    return res
+    return
 
 
 def replay_zv(case):
@@ -713,8 +804,8 @@ def driver_verdict(sysd, cell, seed, e, raw):
         d = np.abs(raw[:, 1] - E0) / escale
         if not np.all(d <= TOL_E):
             out.append(("block-energy", dict(block=int(np.argmax(d)), block_energies=raw[:, 1], E_exact=E0, err=float(d.max()), weights=raw[:, 0])))
-    if e is None or not np.isfinite(e) or not abs(e - E0) / escale <= TOL_E:
-        out.append(("return-value", dict(e_afqmc=None if e is None else float(e), E_exact=E0)))
+    if not out and (e is None or not np.isfinite(e) or not abs(e - E0) / escale <= TOL_E):
+        out.append(("return-value", dict(e_afqmc=None if e is None else float(e), E_exact=E0, block_energies=raw[:, 1])))
     return out
 
 
@@ -734,14 +825,14 @@ def job_driver(cfg):
         try:
             e, err, raw = run_driver(sysd, items, cell, seed)
         except Exception as ex:
-            res.violation("driver.afqmc/raises-%s/%s/%s" % (type(ex).__name__, cell["walker_type"], kind), case, dict(error=repr(ex)[:400]))
+            res.violation("driver.afqmc/raises-%s/%s" % (type(ex).__name__, cell["walker_type"]), case, dict(error=repr(ex)[:400]))
             continue
         nblk = cell["shape"][3]
         res.add(states=nblk, transitions=nblk + 1, evaluations=nblk + 1, traces=1)
         res.guard("driver_runs")
         res.guard("driver_block_energies", nblk)
         for what, detail in driver_verdict(sysd, cell, seed, e, raw):
-            res.violation("driver.afqmc/%s/%s/%s" % (what, cell["walker_type"], kind), case, detail)
+            res.violation("driver.afqmc/%s/%s" % (what, cell["walker_type"]), case, detail)
         weights.append(raw[:, 0])
         res.nontrivial_values((repr(sorted(spec.items())), repr(sorted(cell.items())), int(seed)), raw[:, 0], 6)
     if weights:
@@ -791,22 +882,24 @@ def repr_configs(tier, seed):
     for (n, na, nb) in SPACES3 + SPACES4:
         nd = len(trials.all_dets(n, na, nb))
         E = n * (na + nb)
-        base = dict(n=n, na=na, nb=nb, seed=seed, tier=tier, sources=list(SOURCES), extras=list(EXTRAS))
-        if n == 3:
-            cap = 12 if thorough else 10
-            per = 1 if (thorough or nd > 3) else nd
-            kinds = ["single", "pair", "triple", "dense"]
-            for r0 in range(0, nd, per):
-                out.append(dict(base, refs=list(range(r0, min(nd, r0 + per))), kinds=kinds, cap=cap, cap_r=8 if thorough else 6))
-        else:
-            if thorough:
-                for r in range(nd):
-                    out.append(dict(base, refs=[r], kinds=["single", "pair", "triple", "dense"], cap=10, cap_r=8))
+        kinds = ["single", "pair", "triple", "dense"]
+        # one job per (space, cut-off, block of references): compilation (one per wave_data shape signature and
+        # cut-off) dominates, so a worker keeps one cut-off and sweeps the references
+        for extra in EXTRAS:
+            if not thorough and ((extra == 3 and (n, na, nb) in ((3, 1, 1), (3, 2, 2), (4, 2, 1), (4, 2, 2))) or
+                                 (extra == 1 and (n, na, nb) == (4, 2, 2))):
+                continue  # compilation of the deep excitation loops dominates: thorough tier only
+            base = dict(n=n, na=na, nb=nb, seed=seed, tier=tier, sources=list(SOURCES), extras=[extra], kinds=kinds,
+                        public=(extra == 0))
+            if n == 3:
+                out.append(dict(base, refs=list(range(nd)), cap=40000 if thorough else 6000, cap_r=7000 if thorough else 4000))
+            elif thorough:
+                nblk = 6 if nd > 30 else 2
+                for b in range(nblk):
+                    out.append(dict(base, refs=list(range(b, nd, nblk)), cap=6000, cap_r=7000))
             else:
                 # quick tier: a spread of references; triples over a spread pool of partners
-                for r in spread(nd, 4):
-                    out.append(dict(base, refs=[r], kinds=["single", "pair", "triple", "dense"], cap=8, cap_r=6,
-                                    triple_pool=spread(nd, 5), reduced=True))
+                out.append(dict(base, refs=spread(nd, 3), cap=6000, cap_r=4000, triple_pool=spread(nd, 5)))
     return out
 
 
@@ -830,11 +923,15 @@ def zv_specs(tier, seed):
 
 def zv_configs(tier, seed):
     thorough = tier == "thorough"
-    out = []
+    groups = {}
     for spec in zv_specs(tier, seed):
-        big = spec.get("name") == "lih"
-        out.append(dict(spec=spec, seed=seed, tier=tier, modes=["u", "r"], max_refs=None if (thorough and not big) else 4,
-                        cap=(12 if not big else 10) if thorough else 10, cap_r=(7 if not big else 6) if thorough else 6))
+        key = (spec["sys"], spec.get("n"), spec.get("na"), spec.get("nb"), spec.get("name"), spec.get("spin_dep", False))
+        groups.setdefault(key, []).append(spec)
+    out = []
+    for key, specs in groups.items():
+        big = key[4] == "lih"
+        out.append(dict(specs=specs, seed=seed, tier=tier, modes=["u", "r"], max_refs=6 if (thorough and not big) else 4, max_refs_ground=6 if big else None,
+                        cap=40000 if thorough else 6000, cap_r=7000 if thorough else 4000))
     return out
 
 
@@ -855,7 +952,7 @@ def driver_configs(tier, seed):
             (dict(sys="mol", name="h2_631g"), cell("unrestricted", 2, (2, 1, 1, 2), 0, S)),
         ]
     else:
-        S = [1, 7, 42, 12345]
+        S = [1, 7, 12345]
         systems = [r3(1, 1), r3(2, 1), r3(2, 2), dict(sys="rand", n=4, na=2, nb=2, nchol=2, hseed=seed, eig=0),
                    dict(sys="mol", name="h2"), dict(sys="mol", name="h2_631g"), dict(sys="mol", name="h4")]
         cells = []
@@ -863,7 +960,7 @@ def driver_configs(tier, seed):
             for wt in ("restricted", "unrestricted"):
                 for nbt in (1, 2):
                     for shape, neql in (((2, 1, 1, 2), 0), ((3, 2, 2, 3), 1)):
-                        for rank in (0, 1):
+                        for rank in ((0, 1) if nbt == 1 else (0,)):
                             cells.append((sp, cell(wt, nbt, shape, neql, S, rank=rank)))
             cells.append((sp, cell("unrestricted", 4, (2, 2, 1, 4), 1, S, dt=0.05, nw=8)))
             cells.append((sp, cell("restricted", 1, (5, 1, 3, 2), 0, S, dt=0.002, nw=3)))
@@ -881,15 +978,18 @@ def run(ctx):
     ctx.rule = ("(1) orbital spaces 3 orbitals (all n_up>=n_dn>=1) and 4 orbitals (2,1),(2,2) x every determinant as reference x "
                 "ordered lists {single; pair (0.8,0.6) and unit vector (0,1); every ordered triple; dense vector in every rotation and "
                 "adjacent transposition of its tail, plus its leading half through the ndets argument} x source {dict, Dice file "
-                "-> read_dets, pyscf FCI object -> get_fci_state} x max_excitation in needed+{0,1,3} x walker product grid, oracle "
+                "-> read_dets, pyscf FCI object -> get_fci_state} x max_excitation in needed+{0,1,3} x walker grid (full product grid or its degree-(n_up+n_dn) lower set), oracle "
                 "sum_i c_i <A_i B_i|phi>; (2) exact eigenvectors (every eigenvector of generic Hamiltonians in the thorough tier, lowest "
                 "and highest in quick; pyscf FCI ground states of H2/H4/LiH) x every non-negligible reference x {unrestricted, restricted} "
                 "x walker grid, oracle E_L = E_k; (3) driver.afqmc option matrix (container x n_batch x sampler shape x n_eql x dt x "
                 "seed list) on the exact trial, oracle every block energy and the returned mean = E_0.  A state is one (list, source, "
                 "cut-off, walker) / (eigenvector, reference, container, walker) / (cell, seed, block); distinct & non-trivial = distinct "
                 "(list, source, cut-off) cases with non-zero oracle overlap, distinct non-zero oracle overlaps, distinct block weights")
-    ctx.assume("the overlap is a linear functional of the walker's determinant amplitudes, so a (sub-)grid whose amplitude vectors span "
-               "the sector (rank checked on every grid) decides the effective CI vector of a wave_data; the full-grid statement per wave_data is C01's")
+    ctx.assume("walker grids: full product grid (2 non-real letters per entry, 3 for restricted walkers) up to 4096 points, beyond that the "
+               "lower set {digit sum <= n_up+n_dn} of the same product grid; overlap and <psi|H|phi> are homogeneous of total degree "
+               "n_up+n_dn in the walker entries and interpolation on a lower set is unisolvent for that degree class, so either grid decides "
+               "the identity for every complex walker for implementations in the class (dense exhaustive test otherwise); every "
+               "unrestricted grid is additionally checked to span the (n_up,n_dn) sector")
     ctx.assume("pyscf.fci string addressing / sign convention equals the Fock model's alpha-string x beta-string convention up to a global "
                "sign per sector (the Hamiltonian matrices agree element-wise; verified in the design of this check)")
     ctx.assume("'every seed' of the driver is decided by (2): E_L = E_0 for every walker; the driver cells enumerate a fixed seed list")
@@ -900,17 +1000,50 @@ def run(ctx):
     rj = [dict(c, part="repr") for c in repr_configs(ctx.tier, ctx.seed)]
     rj.sort(key=lambda c: -(len(trials.all_dets(c["n"], c["na"], c["nb"])) ** 2) * len(c["refs"]))
     if not ctx.thorough:
-        ctx.cap("quick tier: 4-orbital spaces use 4 references and triples over a 5-determinant partner pool; driver matrix reduced to 6 cells")
+        ctx.cap("quick tier: 4-orbital spaces use 3 references, triples over a 5-determinant partner pool and cut-offs needed+{0,1} / needed only; "
+                "cut-off needed+3 for the (2,1),(3,1),(3,2),(3,3) spaces of 3 orbitals only; "
+                "driver matrix reduced to 6 cells; eigenvectors: lowest and highest only; at most 4 references per eigenvector")
     try:
         ctx.pmap(job, jobs + rj)
     finally:
         with contextlib.suppress(OSError):
             os.rmdir(TMP_ROOT)  # every cell removes its own directory; the root goes only when empty
-    ctx.violations.sort(key=lambda v: (len(v["case"].get("items", [])) or 99, v["case"].get("n", 9)))
+    attribute(ctx.violations)
     ctx.require_guard("grids_spanning_the_sector", "lists_single", "lists_pair", "lists_triple", "lists_dense", "lists_src_dict",
                       "lists_src_file", "lists_src_fci", "lists_cutoff_above_needed", "public_calc_overlap_u", "public_calc_overlap_r",
                       "zv_points_u", "zv_points_r", "zv_references", "control_inexact_trial_deviates", "driver_runs",
                       "driver_runs_with_nontrivial_weights", "control_inexact_trial_deviates_in_driver")
+
+
+def attribute(violations):
+    """One defect, one signature.  Simplest case first; failures downstream of a failing layer carry that layer's
+    signature (a wrong representation makes the full-vector overlap, the local energy and the driver's block energies
+    wrong; a wrong local energy makes the block energies wrong).  Nothing is removed: every case stays in the list and
+    is replayable; the attribution only decides under which signature it is reported."""
+    rank = {"repr": 0, "repr-public": 1, "zv": 2, "driver": 3}
+    violations.sort(key=lambda v: (rank.get(v["case"].get("part"), 9), len(v["case"].get("items", [])), v["case"].get("n", 9),
+                                   v["case"].get("extra", 0)))
+    layer = lambda v: rank.get(v["case"].get("part"), 9)
+    roots = set(v["signature"] for v in violations if layer(v) == 0)
+    fci_sig = "%s/list-overlap" % SITE["fci"]
+
+    def upstream(v, zv):
+        if layer(v) >= 1 and ROOT_SIG in roots:  # everything downstream builds its trial through the plain route
+            return ROOT_SIG
+        if layer(v) >= 2 and fci_sig in roots and v["case"].get("spec", {}).get("sys") == "mol":  # molecules: get_fci_state
+            return fci_sig
+        if layer(v) == 3 and zv:
+            return zv[0]
+        return None
+
+    for lay in (1, 2, 3):
+        zv = [v["signature"] for v in violations if layer(v) == 2]
+        for v in violations:
+            up = upstream(v, zv) if layer(v) == lay else None
+            if up is not None and v["signature"] != up:
+                v["detail"]["reported_as_consequence_of"] = up
+                v["detail"]["own_signature"] = v["signature"]
+                v["signature"] = up
 
 
 def replay(case):
